@@ -16,7 +16,14 @@ legs: MC   TLC checks that every result of the MECHANISM (census pass per column
            and beanquery.Column descriptions, calls numberify_results(columns, rows, dformat) and compares by
            membership (formatters built for the default and for the maximum precision, with any rendering settings,
            from contexts whose two precisions differ); a subset is also built as a ledger and taken through run_query(.., numberify=True) and,
-           as a text ledger, through BQLShell (`.set numberify true`, csv into a buffer).
+           as a text ledger, through BQLShell (`.set numberify true`, csv into a buffer) -- one statement on a fresh
+           shell, and SESSIONS on one shell object: statement, the ledger file rewritten (another table; the same
+           currencies written with other numbers of digits: Gen_Numberify_shell2.cfg), `.reload`, statement, ...,
+           numberify switched on and off in between; every statement is judged against what TLC emitted for its
+           table and the formatter of the ledger loaded WHEN THE STATEMENT RUNS.
+           The session itself is model-checked too (NumberifySession.tla): the formatter given to a statement is the
+           one of the ledger then loaded when the shell builds it per statement or per load; built once per shell
+           object it is rejected (non-vacuity).
       C2S  random tables (plain + amount-like columns, many currencies, several lots per currency, NULL cells,
            empty inventories, zero amounts, equally named / equally described columns, display context built from
            the values, formatter built for either precision setting) and random ledgers queried through run_query (PIVOT BY included: NULL inventory cells; one
@@ -323,10 +330,10 @@ def num_py(v):
     return None
 
 
-def compare_expected(ctx, p, route, odesc, orows, plain_eq, num_of=num_py):
+def compare_expected(ctx, p, route, odesc, orows, plain_eq, num_of=num_py, case=None):
     """odesc: [[name, ty|None]..] (ty None = not observable on this route); orows: raw observed rows;
     plain_eq(r, j, raw) decides identity of a plain cell with input cell (r, j); num_of(raw) projects a number."""
-    case = case_of(p, route)
+    case = case or case_of(p, route)
     kind = '+'.join(c['ty'] for c in p['cols'] if c['ty'] in AMT)
     # the acceptable descriptions with the observed names (and types); equally named input columns can make several
     # of them agree on the names while differing in which input column owns an output column: the observation is
@@ -580,7 +587,66 @@ def shell_routable(p):
             and all(lot['n'][0] > 0 for r in p['rows'] for lot in r[1]['lots']))
 
 
+def _num_csv(s):
+    s = s.strip()
+    if s == '':
+        return []
+    try:
+        return rat(Decimal(s))
+    except Exception:  # noqa
+        return None
+
+
+def _shell_ready(sh, p, text):
+    """the ledger the shell has loaded must be the generated one: it loads, the display precisions the loader infers
+    are the emitted ones and the query yields the emitted table (otherwise the route, not the code, is at fault)"""
+    if sh.context.errors:
+        raise MachineryError('shell route: the generated ledger does not load: %r\n%s' % (sh.context.errors[:2], text))
+    dformat = sh.context.options['dcontext'].build()
+    if q_of(dformat, [c for c, _ in p['q']]) != sorted(p['q']):
+        raise MachineryError('shell route: display precisions %r, wanted %r' % (q_of(dformat, [c for c, _ in p['q']]), p['q']))
+    cur = sh.context.execute(parsed(QUERIES['Inventory']))
+    if not same_table(p, cur.description, cur.fetchall()):
+        raise MachineryError('shell route did not rebuild the emitted table: %r\n%s' % (p['rows'], text))
+
+
+def _shell_statement(ctx, sh, out, p, lrows, route, case):
+    """`.set numberify <fmt>` and the query on shell sh (whose loaded ledger is the one of case p); the csv written
+    to `out` is compared with what TLC emitted for p"""
+    out.seek(0)
+    out.truncate()
+    try:
+        sh.onecmd('.set numberify %s' % ('true' if p['fmt'] else 'false'))
+        if sh.settings.numberify is not bool(p['fmt']):
+            ctx.violation('numberify:%s:setting' % route, '.set numberify did not change the setting', case, 'S2C')
+            return False
+        out.seek(0)
+        out.truncate()
+        sh.onecmd(QUERIES['Inventory'])
+    except Exception as ex:  # noqa
+        ctx.violation(exc_key(p['cols'], p['rows'], type(ex).__name__), 'shell query with numberify raised %s: %s' % (
+            type(ex).__name__, ex), case, 'S2C', 'a rendered table', type(ex).__name__)
+        return False
+    table = list(csv.reader(io.StringIO(out.getvalue())))
+    if not table:
+        ctx.violation('numberify:%s:no-output' % route, 'nothing rendered', case, 'S2C')
+        return False
+    if not p['fmt']:
+        # numberify off: the Inventory column is rendered as such, one column x
+        if [h.strip() for h in table[0]] != ['i', 'x', 's'] or len(table) - 1 != len(p['rows']):
+            ctx.violation('numberify:%s:off' % route, 'with numberify off the table is not rendered unchanged', case, 'S2C',
+                          ['i', 'x', 's'], table[0])
+            return False
+        return True
+    od = [[h, None] for h in table[0]]
+    plain = [(str(i), acct) for acct, _posts, i in lrows]
+    return compare_expected(ctx, p, route, od, table[1:],
+                            lambda r, j, got: got.strip() == (plain[r][0] if j == 0 else plain[r][1]), _num_csv,
+                            case=case)
+
+
 def s2c_shell(ctx, p, n):
+    """one fresh shell, one statement"""
     from beanquery import shell as bshell
     text, lrows = ledger_text(p, 12)
     path = ctx.path('c17_shell_%d.beancount' % (n % 4))
@@ -590,51 +656,86 @@ def s2c_shell(ctx, p, n):
     saved = warnings.showwarning
     try:
         sh = bshell.BQLShell(path, out, interactive=False, runinit=False, format='csv', numberify=False)
-        if sh.context.errors:
-            raise MachineryError('shell route: the generated ledger does not load: %r\n%s' % (sh.context.errors[:2], text))
-        dformat = sh.context.options['dcontext'].build()
-        if q_of(dformat, [c for c, _ in p['q']]) != sorted(p['q']):
-            raise MachineryError('shell route: display precisions %r, wanted %r' % (q_of(dformat, [c for c, _ in p['q']]), p['q']))
-        cur = sh.context.execute(parsed(QUERIES['Inventory']))
-        if not same_table(p, cur.description, cur.fetchall()):
-            raise MachineryError('shell route did not rebuild the emitted table: %r\n%s' % (p['rows'], text))
-        case = case_of(p, 'shell')
-        try:
-            sh.onecmd('.set numberify %s' % ('true' if p['fmt'] else 'false'))
-            if sh.settings.numberify is not bool(p['fmt']):
-                ctx.violation('numberify:shell:setting', '.set numberify did not change the setting', case, 'S2C')
-                return False
-            sh.onecmd(QUERIES['Inventory'])
-        except Exception as ex:  # noqa
-            ctx.violation(exc_key(p['cols'], p['rows'], type(ex).__name__), 'shell query with numberify raised %s: %s' % (
-                type(ex).__name__, ex), case, 'S2C', 'a rendered table', type(ex).__name__)
-            return False
+        _shell_ready(sh, p, text)
+        return _shell_statement(ctx, sh, out, p, lrows, 'shell', case_of(p, 'shell'))
     finally:
         warnings.showwarning = saved
-    table = list(csv.reader(io.StringIO(out.getvalue())))
-    if not table:
-        ctx.violation('numberify:shell:no-output', 'nothing rendered', case, 'S2C')
-        return False
-    if not p['fmt']:
-        # numberify off: the Inventory column is rendered as such, one column x
-        if [h.strip() for h in table[0]] != ['i', 'x', 's'] or len(table) - 1 != len(p['rows']):
-            ctx.violation('numberify:shell:off', 'with numberify off the table is not rendered unchanged', case, 'S2C',
-                          ['i', 'x', 's'], table[0])
-            return False
-        return True
-    od = [[h, None] for h in table[0]]
-    plain = [(str(i), acct) for acct, _posts, i in lrows]
 
-    def num_csv(s):
-        s = s.strip()
-        if s == '':
-            return []
-        try:
-            return rat(Decimal(s))
-        except Exception:  # noqa
-            return None
-    return compare_expected(ctx, p, 'shell', od, table[1:],
-                            lambda r, j, got: got.strip() == (plain[r][0] if j == 0 else plain[r][1]), num_csv)
+
+def stale_matters(p, prev_q):
+    """would the output for p differ if it were quantised with the display precisions prev_q (those of a ledger the
+    shell had loaded earlier) instead of its own?  some row holds, in one currency, a sum that is no multiple of
+    10^-d for the smaller d of the two precisions of the currency, the two being different"""
+    if not p['fmt'] or prev_q is None:
+        return False
+    mine, other = dict(map(tuple, p['q'])), dict(map(tuple, prev_q))
+    for row in p['rows']:
+        sums = {}
+        for lot in row[1]['lots']:
+            sums[lot['c']] = sums.get(lot['c'], 0) + Fraction(*lot['n'])
+        for c, v in sums.items():
+            a, b = mine.get(c), other.get(c)
+            if a != b and (v * 10 ** min(x for x in (a, b) if x is not None)).denominator != 1:
+                return True
+    return False
+
+
+def s2c_shell_session(ctx, steps, n, stats=None):
+    """HISTORY ON ONE SHELL OBJECT: the shell is opened on the ledger of steps[0]; before every later statement the
+    ledger FILE is rewritten (another table, and -- when the step comes from the other display context -- other
+    display precisions of the same currencies) and the shell is told to `.reload` it (now and then the reload is
+    repeated, or the statement is); numberify is switched as each step says.  Every statement's output is judged
+    against what TLC emitted for (table, formatter of the ledger loaded when the statement runs)."""
+    from beanquery import shell as bshell
+    path = ctx.path('c17_session_%d.beancount' % (n % 4))
+    out = io.StringIO()
+    saved = warnings.showwarning
+    ok = True
+    sh = None
+    last_on_q = None        # display precisions under which the last numberified statement of this shell ran
+    try:
+        for k, p in enumerate(steps):
+            text, lrows = ledger_text(p, 12)
+            with open(path, 'w') as f:
+                f.write(text)
+            how = 'open'
+            if sh is None:
+                sh = bshell.BQLShell(path, out, interactive=False, runinit=False, format='csv',
+                                     numberify=bool(steps[0]['fmt']) if n % 2 else False)
+            else:
+                how = 'reload'
+                sh.onecmd('.reload')
+                if (n + k) % 5 == 0:
+                    sh.onecmd('.reload')
+            _shell_ready(sh, p, text)
+            case = case_of(p, 'shell-session')
+            case['session'] = [{f: q[f] for f in ('cols', 'rows', 'fmt', 'q', 'dc', 'prec', 'descs', 'cells')} for q in steps[:k + 1]]
+            matters = stale_matters(p, last_on_q)
+            for _rep in range(2 if (n + k) % 4 == 1 else 1):
+                good = _shell_statement(ctx, sh, out, p, lrows, 'shell-session', case)
+                ok = ok and good
+                ctx.traces += 1
+                if stats is not None:
+                    stats['statements'] += 1
+                    stats['after_' + how] += 1
+                    stats['numberified'] += p['fmt']
+                    stats['precisions_changed_and_matter'] += 1 if matters else 0
+            if p['fmt']:
+                last_on_q = p['q']
+    finally:
+        warnings.showwarning = saved
+    return ok
+
+
+def session_steps(rng, pools, length):
+    """a session: tables drawn from the pools (one pool per display context), the context changing at most steps"""
+    which = rng.randrange(len(pools))
+    steps = []
+    for _ in range(length):
+        if rng.random() < 0.7:
+            which = (which + 1 + rng.randrange(len(pools) - 1)) % len(pools) if len(pools) > 1 else which
+        steps.append(rng.choice(pools[which]))
+    return steps
 
 
 # ---- C2S: recorders ---------------------------------------------------------------------------------
@@ -961,6 +1062,9 @@ def run(ctx):
         'names leave the boundary between two groups of new columns open, any assignment satisfying every clause is '
         'accepted; |numbers| < 20000 with <= 4 fractional digits (32-bit rationals in TLC), anything else is skipped '
         'and counted',
+        'shell route: "the currency\'s display precision" of a numberified statement is the one of the ledger the shell '
+        'has loaded when the statement runs (after `.reload` of an edited file: the edited file\'s), as for every other '
+        'rendering of the shell',
         'TLC 1.8, Json/IOUtils community modules, CPython 3.12, beancount 3.2',
     ]
     legs = getattr(ctx, 'only_legs', None)
@@ -1000,6 +1104,16 @@ def run(ctx):
             # TLC exhibits the counterexample on the specification; on the code the conformance legs report it under
             # the key numberify:inventory-null-cell
             ctx.tlc('MC_Numberify', cfg, leg='MC-nonvacuity', expect_violation=inv, workers=2)
+        # the shell as a caller over a session (statement, file edited, `.reload`, statement ..): the formatter given to
+        # a statement's numberification is the one of the ledger loaded when the statement runs; the mechanism builds
+        # it per statement (the code) or per load; built once per shell object it must be rejected
+        for cfg in ctx.pick(['MC_NumberifySession.cfg'], ['MC_NumberifySession.cfg', 'MC_NumberifySession_perload.cfg']):
+            res = ctx.tlc('NumberifySession', cfg, leg='MC', workers=2)
+            if res.violated:
+                ctx.violation('spec:session:' + ','.join(res.violated), 'TLC: the session mechanism gives a statement '
+                              'another formatter than the one of the loaded ledger', {'behaviour': res.behaviour[:4000]}, 'MC')
+        ctx.tlc('NumberifySession', 'MC_NumberifySession_once.cfg', leg='MC-nonvacuity',
+                expect_violation='FormatterOfLoadedLedger', workers=2)
         cpu('MC')
     # ---- S2C -----------------------------------------------------------------------------------------
     if want('S2C'):
@@ -1045,11 +1159,37 @@ def run(ctx):
         res = ctx.tlc('Gen_Numberify', 'Gen_Numberify_shell.cfg', leg='GEN-shell', workers=4)
         cand = [p for p in res.printed if shell_routable(p)]
         nsh = 0
-        for k, p in enumerate(ctx.rng.sample(cand, min(ctx.pick(40, 400), len(cand)))):
+        for k, p in enumerate(ctx.rng.sample(cand, min(ctx.pick(16, 120), len(cand)))):
             s2c_shell(ctx, p, k)
             ctx.case(json.dumps(['shell', p['rows'], p['fmt']]), bool(p['rows']))
             nsh += 1
             ctx.traces += 1
+        # sessions: history on one shell object -- statement, the ledger file edited (other display precisions of the
+        # same currencies), `.reload`, statement, ...: the formatter of each statement is the one of the ledger loaded
+        # when it runs
+        res = ctx.tlc('Gen_Numberify', 'Gen_Numberify_shell2.cfg', leg='GEN-shell', workers=4)
+        cand2 = [p for p in res.printed if shell_routable(p)]
+        del res
+        if not cand or not cand2:
+            raise MachineryError('vacuity: a shell replay space is empty')
+
+        def busy(pool):
+            # tables on which quantisation shows (a 3/2 lot) are three times as likely as the others, numberified six times
+            frac = [p for p in pool if any(lot['n'][1] != 1 for r in p['rows'] for lot in r[1]['lots'])]
+            return pool + 2 * frac + 3 * [p for p in frac if p['fmt']]
+        pools = [busy(cand), busy(cand2)]
+        sstats = {'sessions': 0, 'statements': 0, 'after_open': 0, 'after_reload': 0, 'numberified': 0,
+                  'precisions_changed_and_matter': 0}
+        for k in range(ctx.pick(6, 40)):
+            steps = session_steps(ctx.rng, pools, ctx.rng.randint(4, ctx.pick(8, 12)))
+            s2c_shell_session(ctx, steps, k, sstats)
+            sstats['sessions'] += 1
+            for j, p in enumerate(steps):
+                ctx.case(json.dumps(['shell-session', [[q['rows'], q['fmt'], q['q']] for q in steps[:j + 1]]]), bool(p['rows']))
+        ctx.leg('S2C', shell_sessions=sstats)
+        if sstats['after_reload'] == 0 or sstats['precisions_changed_and_matter'] < 3:
+            raise MachineryError('vacuity: no shell session in which a reloaded ledger changes the quantisation of a '
+                                 'numberified statement: %r' % (sstats,))
         # the known defect through the public routes: NULL inventory cells come out of PIVOT BY
         ctx.leg('S2C', shell_cases=nsh)
         if nsh == 0:
@@ -1100,7 +1240,9 @@ def replay(ctx, rep):
     if 'descs' in case:
         route = case.get('route', 'direct')
         fn = {'direct': lambda: s2c_direct(ctx, case, 1), 'run_query': lambda: s2c_run_query(ctx, case),
-              'shell': lambda: s2c_shell(ctx, case, 0)}[route]
+              'shell': lambda: s2c_shell(ctx, case, 0),
+              # the whole history up to the failing statement is re-run on one shell (n = 2: no repeated statements)
+              'shell-session': lambda: s2c_shell_session(ctx, case.get('session') or [case], 2)}[route]
         ok = fn()
         bad = (ok is False) or bool(ctx.violations) or bool(ctx.known_hits)
         print('replay:', 'MISMATCH reproduced' if bad else 'no mismatch')
